@@ -1620,6 +1620,8 @@ class NPFacade:
     @staticmethod
     def _asarray(obj, dtype=None, **kw):
         """np.asarray: NO copy when the input already is an array of the requested dtype (the result aliases the caller's array)"""
+        if dtype is not None and dtype in (globals().get("sym_int"), globals().get("sym_float")):
+            dtype = _np_dtype(dtype)
         if isinstance(obj, SymArray):
             tag = getattr(obj, "tag", None)
             if dtype is None or (tag is not None and _np_dtype(dtype) == tag):
@@ -1628,6 +1630,8 @@ class NPFacade:
 
     @staticmethod
     def _array(obj, dtype=None, copy=True, **kw):
+        if dtype is not None and dtype in (globals().get("sym_int"), globals().get("sym_float")):
+            dtype = _np_dtype(dtype)          # the repo modules' rebound `int` / `float` used as a dtype
         if isinstance(obj, SymArray):
             r = obj.copy() if copy else obj
             return cast_array(r, dtype) if dtype is not None else r
